@@ -87,6 +87,12 @@ func (m *authenticatedMap[IdentifierType, K, V]) Set(key K, value V) error {
 		return ierrors.Wrap(err, "failed to serialize value")
 	}
 
+	// the tree reports a missing key as a nil value, so an empty value has to be stored as
+	// a non-nil empty slice, otherwise the key would be in the tree but count as absent.
+	if valueBytes == nil {
+		valueBytes = []byte{}
+	}
+
 	keyBytes, err := m.keyToBytes(key)
 	if err != nil {
 		return ierrors.Wrap(err, "failed to serialize key")
